@@ -74,9 +74,13 @@ def run_jobs(jobs, tier, use_cache, progress=True, pid=None, known=None):
     done = [0]
     stop = [False]
 
+    def wt(h):
+        # quick-tier queries were measured at <= 3 GB resident; their ulimit (h["mem"]) stays as a safety cap
+        return min(h["weight"], 3.5) if tier == "quick" else h["weight"]
+
     def work(job):
         h, cfg = job
-        sched.acquire(h["weight"])
+        sched.acquire(wt(h))
         try:
             if stop[0]:
                 return (h, cfg, None)
@@ -87,7 +91,7 @@ def run_jobs(jobs, tier, use_cache, progress=True, pid=None, known=None):
                  "checks_total": 0, "checks_failed": 0, "covers_sat": 0, "covers_total": 0, "reused": False,
                  "wall_s": 0.0, "verification_time_s": None, "encoding": None}
         finally:
-            sched.release(h["weight"])
+            sched.release(wt(h))
         # a counterexample tagged with this property is lifted and replayed natively right away (the replay
         # binaries are being built in the background since the start of the check); a confirmed violation
         # decides the check, so the remaining queries are not started
